@@ -191,6 +191,10 @@ def relation_table(tier):
             tab.append(("R1", {"opt": opt, "v": v2}))
         tab.append(("R2", {"opt": opt, "cli": v1, "file": v2}))
         tab.append(("R2", {"opt": opt, "cli": v2, "file": v1}))
+        # the file's value wins also when it is the "empty" value of its kind
+        empty = {"flag": False, "int": 0, "str": "", "set": [], "list": [], "json": {}}[kind]
+        if opt not in ("nthreads", "recursion_limit"):
+            tab.append(("R2", {"opt": opt, "cli": v1, "file": empty}))
         tab.append(("R3", {"opt": opt, "v": v1, "file": {}}))
         other = "hover_language" if opt != "hover_language" else "nthreads"
         tab.append(("R3", {"opt": opt, "v": v1, "file": {other: OPTIONS[other][1]}}))
